@@ -684,7 +684,14 @@ func (m *Machine) execStmt(s ir.Stmt, sc *Scope, fr *frame) flow {
 					c := sc.declare(x.Names[0], nil)
 					c.V = &Closure{Def: fe.F, Env: sc, Fenv: fr.cl.Fenv}
 				} else {
-					cl := &Closure{Def: fe.F, Env: sc, Fenv: fr.cl.Fenv}
+					// `local name = function`: the name is not in scope inside the function; a mention of it there
+					// is the variable of that name declared earlier, or a global (sc is the scope level opened for
+					// this statement, its parent the one before it)
+					env := sc
+					if sc.vars == nil && sc.parent != nil {
+						env = sc.parent
+					}
+					cl := &Closure{Def: fe.F, Env: env, Fenv: fr.cl.Fenv}
 					sc.declare(x.Names[0], cl)
 				}
 				return flow{}
